@@ -404,6 +404,53 @@ def mapping_case(case):
     return len(got)
 
 
+ENDLESS_CHILD = r"""
+import sys
+sys.path.insert(0, sys.argv[1])
+from ECAgent.Core import Agent, Model, Component
+from ECAgent.Batching import ParameterList
+class Wolf(Agent):
+    pass
+class Pack(Wolf):
+    pass
+m = Model(seed=1)
+w = Wolf('w', m)
+w.add_component(Component(w, m))
+val = {'class': Wolf, 'subclass': Pack, 'base_class': Agent, 'instance': w, 'bare_instance': Pack('p', m)}[sys.argv[2]]
+pl = ParameterList({'species': val, 'n': [1, 2]})
+if sys.argv[3] == 'add':
+    pl = ParameterList({'n': [1, 2]})
+    pl.add_parameter('species', val)
+got = pl.build()
+names = [list(d) for d in got]
+ok = len(got) == 2 and all(d['species'] is val for d in got) and sorted(d['n'] for d in got) == [1, 2]
+print('RESULT', ok, len(got), names)
+"""
+
+
+def endless_case(case):
+    """A parameter whose single value is an agent class (the species to simulate) or an agent object: `cls[Type]` and
+    `agent[Type]` are lookups, not sequences - the value is ONE value, and build() returns.  (Run in a child interpreter
+    with a deadline: an iteration that never ends cannot be observed from inside.)"""
+    import os
+    import subprocess
+    import sys
+    import ECAgent.Core as Core
+    tree = os.path.dirname(os.path.dirname(os.path.abspath(Core.__file__)))
+    try:
+        r = subprocess.run([sys.executable, '-c', ENDLESS_CHILD, tree, case['value'], case['how']], capture_output=True,
+                           text=True, env=dict(os.environ, PYTHONHASHSEED='0'), timeout=case.get('deadline', 30))
+    except subprocess.TimeoutExpired:
+        raise Violation(f'build() of a declaration whose parameter "species" is an agent {case["value"]} (declared through '
+                        f'{case["how"]}) does not return within {case.get("deadline", 30)} s', expected='2 combinations',
+                        observed='still running')
+    line = next((ln for ln in r.stdout.splitlines() if ln.startswith('RESULT ')), None)
+    if line is None or not line.startswith('RESULT True'):
+        raise Violation(f'build() of a declaration whose parameter "species" is an agent {case["value"]}: the value is not '
+                        f'treated as one value', expected='RESULT True 2', observed=line or (r.stderr.strip().splitlines() or [''])[-1])
+    return 2
+
+
 def wide_case(case):
     """n declared parameters of which only those at the given positions have more than one value: whichever positions
     those are, the earlier-declared one varies slowest."""
@@ -507,6 +554,18 @@ def run(ctx):
         except Violation as v:
             ctx.report(case, v)
             return
+    if not ctx.small:
+        for value in ('class', 'subclass', 'base_class', 'instance', 'bare_instance'):
+            for how in ('ctor', 'add'):
+                case = {'leg': 'endless', 'value': value, 'how': how}
+                ctx.traces += 1
+                try:
+                    ctx.transitions += hbfs._guard(endless_case, case)
+                except Violation as v:
+                    ctx.report(case, v)
+                    return
+        ctx.leg('agent_valued', cases=10, note='a parameter whose value is an agent class / an agent object (child interpreter '
+                                               'with a deadline)')
     for how in ('percent', 'percent_reversed', 'ordered', 'proxy'):
         case = {'leg': 'mapping', 'how': how}
         ctx.traces += 1
@@ -578,6 +637,9 @@ def replay(case):
         return
     if case['leg'] == 'mapping':
         hbfs._guard(mapping_case, case)
+        return
+    if case['leg'] == 'endless':
+        hbfs._guard(endless_case, case)
         return
     if case['leg'] == 'redeclare':
         hbfs._guard(redeclare_case, case)
